@@ -8,6 +8,7 @@ import Verif.Generated.Regexes
 import Verif.Model.ReCap
 import Verif.Model.SchemaMatch
 import Verif.Model.FilterCost
+import Verif.Driver.StepsOp
 import Verif.Model.RecvCost
 import Verif.Model.DecodeCost
 import Verif.Driver.ReBudget
@@ -78,6 +79,13 @@ def pureOp (op : String) (j : Json) : Except String Json := do
     match FilterCost.parseFilterTextC depth cps with
     | (.ok _, k) => return Json.mkObj [("ok", Json.bool true), ("calls", k)]
     | (.error _, k) => return Json.mkObj [("ok", Json.bool false), ("calls", k)]
+  | "fparsesteps" =>
+    -- the step-counting parser (Model/FilterSteps.lean): total steps with the attribute-pattern charge, and the parser's own scan steps
+    let cps ← (← getArr j "cps").mapM (fun x => x.getNat?)
+    let depth := (getNat j "depth").toOption.getD 200
+    let (n, o) := fparseStepsAt depth cps
+    let scan := (FilterSteps.parseFilterTextSK 0 depth cps).2
+    return Json.mkObj [("steps", n), ("scan", scan), ("outcome", o)]
   | "decfilterc" =>
     -- the counting BER filter decoder: number of LDAPFilter.unpack calls and whether it succeeds
     let bs ← getBytes j "hex"
